@@ -86,8 +86,17 @@ pub enum Step {
     /// pool.get() (pool-level timeouts) or pool.timeout_get(per_call)
     Get { per_call: Option<T3> },
     Advance { ms: u16 },
-    OpenGate { i: u8 },
-    Return { h: u8 },
+    /// `lazy`: the woken caller is not polled until a later step (a busy executor)
+    OpenGate {
+        i: u8,
+        #[serde(default)]
+        lazy: bool,
+    },
+    Return {
+        h: u8,
+        #[serde(default)]
+        lazy: bool,
+    },
     Close,
 }
 
@@ -289,6 +298,8 @@ enum Res {
 
 #[derive(Clone, Debug, PartialEq, Eq)]
 enum Phase {
+    /// a slot was handed to this waiter but it has not been polled since
+    Granted,
     Waiting { deadline: Option<u64> },
     Creating { deadline: Option<u64>, gate: usize },
     Recycling { deadline: Option<u64>, gate: usize, obj: u32 },
@@ -307,6 +318,8 @@ struct MGate {
     ok: bool,
     never: bool,
     dead: bool,
+    /// opened, but the caller has not been polled since
+    opened: bool,
 }
 
 #[derive(Clone)]
@@ -375,11 +388,45 @@ impl Model {
         self.grant();
     }
 
+    /// a freed slot goes to the first waiter at once (fair semaphore); what the waiter
+    /// does with it happens when it is polled (`poll_woken`)
     fn grant(&mut self) {
         while self.in_use < self.max && !self.closed {
             let Some(g) = self.waiters.pop_front() else { break };
             self.in_use += 1;
-            self.proceed(g);
+            self.gets[g].phase = Phase::Granted;
+        }
+    }
+
+    /// the executor polls every woken caller, in index order, until nothing is woken
+    fn poll_woken(&mut self) {
+        for _ in 0..64 {
+            let mut progressed = false;
+            for g in 0..self.gets.len() {
+                match self.gets[g].phase.clone() {
+                    Phase::Granted => {
+                        progressed = true;
+                        self.proceed(g);
+                    }
+                    Phase::Creating { gate, .. } | Phase::Recycling { gate, .. } if self.gates[gate].opened && !self.gates[gate].dead => {
+                        progressed = true;
+                        self.complete_gate(gate);
+                    }
+                    Phase::Waiting { deadline: Some(d) } | Phase::Creating { deadline: Some(d), .. } | Phase::Recycling { deadline: Some(d), .. }
+                        if d <= self.now =>
+                    {
+                        progressed = true;
+                        self.time_out(g);
+                    }
+                    _ => {}
+                }
+                if self.unspecified.is_some() {
+                    return;
+                }
+            }
+            if !progressed {
+                break;
+            }
         }
     }
 
@@ -413,7 +460,7 @@ impl Model {
                         continue;
                     }
                     Out::Gate(ok) => {
-                        self.gates.push(MGate { get: g, ok, never: false, dead: false });
+                        self.gates.push(MGate { get: g, ok, never: false, dead: false, opened: false });
                         let gate = self.gates.len() - 1;
                         if t.recycle.ms() == Some(0) {
                             // polled once, pending, deadline already over
@@ -429,7 +476,7 @@ impl Model {
                         return;
                     }
                     Out::Never => {
-                        self.gates.push(MGate { get: g, ok: true, never: true, dead: false });
+                        self.gates.push(MGate { get: g, ok: true, never: true, dead: false, opened: false });
                         let gate = self.gates.len() - 1;
                         if t.recycle.ms() == Some(0) {
                             self.gates[gate].dead = true;
@@ -474,7 +521,7 @@ impl Model {
                             Out::Gate(ok) => (ok, false),
                             _ => (true, true),
                         };
-                        self.gates.push(MGate { get: g, ok, never, dead: false });
+                        self.gates.push(MGate { get: g, ok, never, dead: false, opened: false });
                         let gate = self.gates.len() - 1;
                         if t.create.ms() == Some(0) {
                             self.gates[gate].dead = true;
@@ -497,12 +544,16 @@ impl Model {
         self.gates
             .iter()
             .enumerate()
-            .filter(|(_, g)| !g.dead && !g.never)
+            .filter(|(_, g)| !g.dead && !g.never && !g.opened)
             .map(|(i, _)| i)
             .collect()
     }
 
     fn open_gate(&mut self, gate: usize) {
+        self.gates[gate].opened = true;
+    }
+
+    fn complete_gate(&mut self, gate: usize) {
         let (g, ok) = (self.gates[gate].get, self.gates[gate].ok);
         self.gates[gate].dead = true;
         match self.gets[g].phase.clone() {
@@ -528,10 +579,19 @@ impl Model {
         }
     }
 
+    fn gate_opened(&self, p: &Phase) -> bool {
+        match p {
+            Phase::Creating { gate, .. } | Phase::Recycling { gate, .. } => self.gates[*gate].opened,
+            _ => false,
+        }
+    }
+
     fn next_deadline(&self) -> Option<u64> {
         self.gets
             .iter()
             .filter_map(|g| match g.phase {
+                // a completion that is already there wins over the deadline whenever the caller is polled
+                Phase::Creating { .. } | Phase::Recycling { .. } if self.gate_opened(&g.phase) => None,
                 Phase::Waiting { deadline } | Phase::Creating { deadline, .. } | Phase::Recycling { deadline, .. } => deadline,
                 _ => None,
             })
@@ -546,6 +606,7 @@ impl Model {
             .iter()
             .enumerate()
             .filter(|(_, g)| match g.phase {
+                Phase::Creating { .. } | Phase::Recycling { .. } if self.gate_opened(&g.phase) => false,
                 Phase::Waiting { deadline } | Phase::Creating { deadline, .. } | Phase::Recycling { deadline, .. } => {
                     deadline.map(|d| d <= self.now).unwrap_or(false)
                 }
@@ -556,26 +617,35 @@ impl Model {
         if due.len() > 1 {
             return false;
         }
-        for g in due {
-            match self.gets[g].phase.clone() {
-                Phase::Waiting { .. } => {
-                    self.waiters.retain(|x| *x != g);
-                    self.gets[g].phase = Phase::Done(Res::TimeoutWait);
-                }
-                Phase::Creating { gate, .. } => {
-                    self.gates[gate].dead = true;
-                    self.gets[g].phase = Phase::Done(Res::TimeoutCreate);
-                    self.release_slot();
-                }
-                Phase::Recycling { gate, obj, .. } => {
-                    self.gates[gate].dead = true;
-                    self.destroyed.push(obj);
-                    self.proceed(g);
-                }
-                Phase::Done(_) => {}
-            }
+        // a caller that was woken but not polled yet may free a slot at this very instant:
+        // whether a waiter whose deadline is now still gets it is not defined
+        let lazies = self.gets.iter().any(|g| matches!(g.phase, Phase::Granted) || self.gate_opened(&g.phase));
+        if lazies && due.iter().any(|g| matches!(self.gets[*g].phase, Phase::Waiting { .. })) {
+            return false;
         }
+        // the actions themselves happen in poll_woken, in the order the executor polls
         true
+    }
+
+    /// the deadline of caller g has passed and it is being polled
+    fn time_out(&mut self, g: usize) {
+        match self.gets[g].phase.clone() {
+            Phase::Waiting { .. } => {
+                self.waiters.retain(|x| *x != g);
+                self.gets[g].phase = Phase::Done(Res::TimeoutWait);
+            }
+            Phase::Creating { gate, .. } => {
+                self.gates[gate].dead = true;
+                self.gets[g].phase = Phase::Done(Res::TimeoutCreate);
+                self.release_slot();
+            }
+            Phase::Recycling { gate, obj, .. } => {
+                self.gates[gate].dead = true;
+                self.destroyed.push(obj);
+                self.proceed(g);
+            }
+            Phase::Done(_) | Phase::Granted => {}
+        }
     }
 
     fn ret(&mut self, obj: u32) {
@@ -595,6 +665,13 @@ impl Model {
         }
         for g in self.waiters.drain(..).collect::<Vec<_>>() {
             self.gets[g].phase = Phase::Done(Res::Closed);
+        }
+        // a waiter that was handed a slot but has not been polled since finds the semaphore closed
+        for g in 0..self.gets.len() {
+            if self.gets[g].phase == Phase::Granted {
+                self.gets[g].phase = Phase::Done(Res::Closed);
+                self.in_use -= 1;
+            }
         }
     }
 }
@@ -840,6 +917,9 @@ async fn run_managed_body(case: &Case, world: Arc<World>, out: &mut Outcome) {
                 if gets.iter().filter(|g| g.done.is_none()).count() >= 5 {
                     continue;
                 }
+                // callers left unpolled by a lazy step run before the new call does
+                settle!();
+                model.poll_woken();
                 let t = per_call.unwrap_or(case.pool_t);
                 let p2 = pool.clone();
                 let fut: GetFut = match per_call {
@@ -865,6 +945,7 @@ async fn run_managed_body(case: &Case, world: Arc<World>, out: &mut Outcome) {
                 let creates_before = world.w().n_create;
                 let recycles_before = world.w().n_recycle;
                 settle!();
+                model.poll_woken();
                 // A call that names a non-zero timeout it could never apply (no runtime) may be
                 // refused up front even if it would not have needed that timeout this time.
                 if !case.runtime
@@ -924,6 +1005,7 @@ async fn run_managed_body(case: &Case, world: Arc<World>, out: &mut Outcome) {
                             return;
                         }
                         settle!();
+                        model.poll_woken();
                         compare!("after a deadline");
                     }
                     if model.now >= target {
@@ -931,9 +1013,10 @@ async fn run_managed_body(case: &Case, world: Arc<World>, out: &mut Outcome) {
                     }
                 }
                 settle!();
+                model.poll_woken();
                 compare!("after advance");
             }
-            Step::OpenGate { i } => {
+            Step::OpenGate { i, lazy } => {
                 let mg = model.closed_gates();
                 let Some(k) = pick(i, mg.len()) else { continue };
                 let gate = mg[k];
@@ -957,10 +1040,15 @@ async fn run_managed_body(case: &Case, world: Arc<World>, out: &mut Outcome) {
                     }
                 }
                 model.open_gate(gate);
-                settle!();
+                if lazy && case.runtime {
+                    out.labels.push("lazy-poll".into());
+                } else {
+                    settle!();
+                    model.poll_woken();
+                }
                 compare!("after opening a gate");
             }
-            Step::Return { h } => {
+            Step::Return { h, lazy } => {
                 let Some(i) = pick(h, held.len()) else { continue };
                 let o = held.remove(i);
                 let id = o.id;
@@ -974,13 +1062,19 @@ async fn run_managed_body(case: &Case, world: Arc<World>, out: &mut Outcome) {
                     }
                 }
                 model.ret(id);
-                settle!();
+                if lazy && case.runtime {
+                    out.labels.push("lazy-poll".into());
+                } else {
+                    settle!();
+                    model.poll_woken();
+                }
                 compare!("after a return");
             }
             Step::Close => {
                 pool.close();
                 model.close();
                 settle!();
+                model.poll_woken();
                 compare!("after close");
             }
         }
@@ -1219,7 +1313,7 @@ async fn run_unmanaged_body(case: &Case, out: &mut Outcome, trace: &mut Vec<Stri
                 compare!("after advance");
             }
             Step::OpenGate { .. } => {}
-            Step::Return { h } => {
+            Step::Return { h, .. } => {
                 let Some(i) = pick(h, held.len()) else { continue };
                 let o = held.remove(i);
                 drop(o);
@@ -1304,8 +1398,8 @@ fn step(runtime: bool) -> BoxedStrategy<Step> {
     prop_oneof![
         6 => prop::option::weighted(0.6, t3(runtime)).prop_map(|per_call| Step::Get { per_call }),
         6 => prop_oneof![Just(1u16), Just(5), Just(9), Just(10), Just(11), Just(19), Just(20), Just(21), Just(30), Just(49), Just(50), Just(51), Just(100)].prop_map(|ms| Step::Advance { ms }),
-        3 => any::<u8>().prop_map(|i| Step::OpenGate { i }),
-        4 => any::<u8>().prop_map(|h| Step::Return { h }),
+        3 => (any::<u8>(), prop::bool::weighted(0.3)).prop_map(|(i, lazy)| Step::OpenGate { i, lazy }),
+        4 => (any::<u8>(), prop::bool::weighted(0.3)).prop_map(|(h, lazy)| Step::Return { h, lazy }),
         1 => Just(Step::Close),
     ]
     .boxed()
